@@ -10,9 +10,12 @@
 (*   RoundTrip        ParsePattern inverts PatternText;                      *)
 (*   CommonSane       a common pattern accepts its own text in both cases    *)
 (*                    and nothing with a leading colon.                      *)
-(* SideCondition counts, for the patterns that violate the side condition,   *)
-(* how many have a header on which walk and property disagree (the condition *)
-(* is needed, not merely convenient).                                        *)
+(*   SpellingsAccepted  every spelling the case generator calls accepted is  *)
+(*                    accepted by the property (a check of MatchCases).      *)
+(* All are conjuncts of the single invariant Checked.  For the patterns that *)
+(* violate the side condition it counts how many have a header on which the  *)
+(* walk and the property disagree about acceptance (the condition is needed, *)
+(* not merely convenient).                                                   *)
 EXTENDS MatchCases, TLC, IOUtils
 
 CONSTANTS Mode,      \* "lex": patterns over the lexicon, "shipped": the frozen list
@@ -48,6 +51,9 @@ Agree(h) == LET a == Accepts(pat.kws, pat.query, h)
             IN /\ m.ok = a
                /\ a => /\ m.nums = Numbers(pat.kws, pat.query, h, DefaultMark)
                        /\ Cardinality(GoodSelections(pat.kws, pat.query, h)) = 1      \* UniqueSelection
+AcceptAgree(h) == MatchAlgo(pat.kws, pat.query, h, DefaultMark).ok = Accepts(pat.kws, pat.query, h)
+SpellingsAccepted == \A sp \in SpellSeqs(pat.kws, 1, TRUE) :
+                        Accepts(pat.kws, pat.query, Join(sp) \o (IF pat.query THEN <<QMARK>> ELSE <<>>))
 RoundTrip  == /\ ParsePattern(pat.text).kws = pat.kws /\ ParsePattern(pat.text).query = pat.query
               /\ ParsePattern(pat.text).common = pat.common
               /\ (~pat.common => PatternText(pat.kws, pat.query) = pat.text)
@@ -63,6 +69,7 @@ Checked ==
         /\ PrintT(<<"COMMON", Cardinality(H), Cardinality({h \in H : AcceptsText(pat.text, h)})>>)
      ELSE IF WF THEN
         /\ \A h \in H : Agree(h)                                             \* AlgoEqualsSpec, UniqueSelection
+        /\ SpellingsAccepted
         /\ PrintT(<<"WELLFORMED", Cardinality(H)>>)
-     ELSE PrintT(<<"ILLFORMED", IF \A h \in H : Agree(h) THEN 0 ELSE 1>>)   \* SideCondition
+     ELSE PrintT(<<"ILLFORMED", IF \A h \in H : AcceptAgree(h) THEN 0 ELSE 1>>)   \* side condition needed?
 =============================================================================
